@@ -49,7 +49,7 @@ def ncf2landuse(ncffile, outpath):
             var['EPAD1'] = 8
 
         var['SPAD2'][...] = invar.size * 4
-        var['DATA'][...] = invar[:]
+        var['DATA'][...] = np.ma.filled(invar[:])
         var['EPAD2'][...] = invar.size * 4
         var.tofile(outfile)
 
